@@ -532,3 +532,57 @@ contract(
     props=('C07', 'C17'),
     note='a fresh History whose entry lists are fresh, pairwise distinct lists with the same entries',
 )
+
+
+# --- Config.__build__ / tagged_value_fn (C01, C14) ---------------------------------------------------
+G_UCALLS = 'g:user_calls'        # ghost: number of invocations of configured callables
+G_ULAST = 'ga:user_last'         # ghost: [0] callable, [1] args list, [2] kwargs dict
+
+
+def ucalls(h):
+  return h.get(G_UCALLS)
+
+
+def _user_call_post(c):
+  h = c.heap
+  return z3.And(ucalls(h) == ucalls(c.old) + 1, h.get(G_ULAST)[0] == c['fn'],
+                h.get(G_ULAST)[1] == c['args'], h.get(G_ULAST)[2] == c['kwargs'])
+
+
+contract('config.user_callable', F, 'user_callable', abstract=True, params=['fn', 'args', 'kwargs'],
+         ensures=_user_call_post, may_raise=('BaseException',),
+         raises_post={'BaseException': _user_call_post}, havoc_all=True,
+         ghost_writes=(G_UCALLS, G_ULAST),
+         note='assumed: the configured callable is arbitrary user code; the ghost log records it')
+
+
+def _cfg_build_post(c):
+  h = c.heap
+  return z3.And(ucalls(h) == ucalls(c.old) + 1,
+                h.get(G_ULAST)[0] == c.old.fld(ref(c['self']), '__fn_or_cls__'),
+                h.get(G_ULAST)[1] == c['args'], h.get(G_ULAST)[2] == c['kwargs'])
+
+
+contract(
+    'config.Config.__build__', F, 'Config.__build__',
+    requires=lambda c: z3.And(isref(c.old, c['self'], 'Config'), isref(c.old, c['args'], 'tuple'),
+                              isref(c.old, c['kwargs'], 'dict')),
+    ensures=_cfg_build_post, may_raise=('BaseException',), raises_post={'BaseException': _cfg_build_post},
+    calls={'self.__fn_or_cls__': 'config.user_callable'}, havoc_all=True,
+    ghost_writes=(G_UCALLS, G_ULAST), props=('C01',),
+    note='the configured callable is invoked exactly once with exactly the given *args / **kwargs '
+         'and its result or exception is passed on',
+)
+
+
+def _tvf_notset(c):
+  return c['value'] == NO_VALUE
+
+
+contract(
+    'config.tagged_value_fn', F, 'tagged_value_fn',
+    requires=lambda c: z3.Or(is_VNone(c['tags']), isref(c.old, c['tags'], 'set')),
+    ensures=lambda c: c.result == c['value'],
+    raises={'TaggedValueNotFilledError': _tvf_notset}, allocates=False, props=('C14',),
+    note='returns the value, or raises TaggedValueNotFilledError iff it is NO_VALUE',
+)
